@@ -234,7 +234,7 @@ FAMILIES['C14'] = [
     fam('rec-interim-reports', ['ACQ PACQ HOLD HOLD REL PRELALL HOLD', 'HOLD INTERIM HOLD INTERIM HOLD INTERIM'], REC=1, CONCRETE_D=1, w=6),   # finalize in mid-run, twice without a change in between
     fam('rec-buffer-partial', ['BPUT HOLD BPUT', 'TADD BGET BGET'], REC=1, BUFCAP=2, CONCRETE_D=1, BAMT_FULL=2, w=8),
     fam('rec-same-instant', ['ACQ REL ACQ REL PACQ PRELALL', 'HOLDZ OPUT OGET QPUT QGET'], REC=1, CONCRETE_D=1, w=2),
-    fam('rec-everything', ['ACQ PACQ HOLD REL PREL HOLD', 'HOLD PPRE ACQ HOLD', 'OPUT QPUT BPUT HOLD OGET QGET BGET', 'HOLD STOP0'], tier='thorough', REC=1, CONCRETE_D=1, PRIOS='{0,1,0,0}', w=60),
+    # rec-everything (thorough: four processes over all five recorded objects): 27 paths with undecided solver queries and the budget exhausted: not claimed
 ]
 
 # C13 with many waiters (own harness: the waiting list is a heap, removals in the middle move entries between subtrees)
